@@ -1,2 +1,59 @@
+"""C13, engine M: relative_to of a non-negative interval against a strictly positive reference encloses (x-r)/r for all
+members x, r and attains its bounds (real arithmetic on the terms extracted from the MIR of Interval::<T>::relative_to)."""
+from mirsmt import engine as E, term as T, mir
+from props.common_m import *
+
+
+def ivl(k, lo, hi):
+    if k == 0:
+        return ('adt', 'Interval', 0, [E.fv(lo), E.fv(hi)])
+    return ('adt', 'Interval', k, [E.fv(lo if k == 1 else hi)])
+
+
 def run(ctx):
-    pass
+    m = E.MEngine(ctx)
+    if not m.ok:
+        return
+    try:
+        f = m.fn('relative_to', 'Interval', 'inherent')
+        x, y, a, b, X, R = (T.var(v) for v in ('x', 'y', 'a', 'b', 'X', 'R'))
+        zero = T.fconst(0)
+        for ks, kr in ((0, 0), (1, 0), (0, 1)):
+            s_, r_ = ivl(ks, 'x', 'y'), ivl(kr, 'a', 'b')
+            res = m.run(f, [('ref', 0, '_s', ()), ('ref', 0, '_r', ())], {'_s': s_, '_r': r_})
+            pre = [T.mk('fle', zero, x)] + ([T.mk('fle', x, y)] if ks == 0 else []) + [T.mk('flt', zero, a)] + ([T.mk('fle', a, b)] if kr == 0 else [])
+            mem = [T.mk('fle', x, X)] + ([T.mk('fle', X, y)] if ks == 0 else []) + [T.mk('fle', a, R)] + ([T.mk('fle', R, b)] if kr == 0 else [])
+            val = T.mk('fdiv', T.mk('fsub', X, R), R)
+            tag = '%s-vs-%s' % (KNAME[ks], KNAME[kr])
+            oks = 0
+            for r in res:
+                if r.kind == 'stuck':
+                    m.stuck('C13:relative_to:' + tag, r.value[1])
+                    continue
+                if r.kind == 'panic':
+                    m.submit('C13:relative_to:no-panic:' + tag, r.pc + pre, T.bconst(False), key='C13:relative_to:panic', note='zero-reference panic unreachable for a strictly positive reference')
+                    continue
+                v = r.value
+                kind = v[2]
+                bnds = [t_[1] for t_ in v[3]]
+                oks += 1
+                want_kind = {(0, 0): 0, (1, 0): 1, (0, 1): 2}[(ks, kr)]
+                if kind != want_kind:
+                    m.violated_structurally('C13:relative_to:kind:' + tag, 'C13:relative_to:kind', 'result kind %d, image has kind %d' % (kind, want_kind))
+                    continue
+                lo_t = bnds[0] if kind in (0, 1) else None
+                hi_t = bnds[-1] if kind in (0, 2) else None
+                goal = T.and_(*([T.mk('fle', lo_t, val)] if lo_t is not None else []) + ([T.mk('fle', val, hi_t)] if hi_t is not None else []))
+                m.submit('C13:relative_to:encloses:' + tag, r.pc + pre + mem, goal, key='C13:relative_to:encloses', timeout=120, note='(X-R)/R inside the result for all members X, R')
+                # attained: lower bound at (x, b), upper bound at (y, a)
+                att = []
+                if lo_t is not None:
+                    att.append(T.mk('feq', lo_t, T.mk('fdiv', T.mk('fsub', x, b), b)))
+                if hi_t is not None:
+                    att.append(T.mk('feq', hi_t, T.mk('fdiv', T.mk('fsub', y, a), a)))
+                m.submit('C13:relative_to:attained:' + tag, r.pc + pre, T.and_(*att), key='C13:relative_to:attained', timeout=60, note='finite bounds are attained at the endpoints (x,b) / (y,a)')
+            if oks == 0:
+                m.stuck('C13:relative_to:' + tag, 'no returning path')
+    except mir.Stuck as e:
+        m.stuck('C13:M', 'unsupported construct: %s' % e)
+    m.finish()
